@@ -32,6 +32,8 @@ struct Connection {
     sequence: u64,
     expire_timestamp: u64,
     replay_protection: ReplayProtection,
+    // Sequence of the first challenge issued for this connection attempt, older challenges are not accepted
+    first_challenge_sequence: u64,
 }
 
 #[derive(Debug, Copy, Clone)]
@@ -347,6 +349,7 @@ impl NetcodeServer {
             expire_timestamp,
             user_data: connect_token.user_data,
             replay_protection: ReplayProtection::new(),
+            first_challenge_sequence: self.challenge_sequence,
         });
         pending.last_packet_received_time = self.current_time;
         pending.last_packet_send_time = self.current_time;
@@ -468,6 +471,10 @@ impl NetcodeServer {
                     token_sequence,
                 } => {
                     let challenge_token = ChallengeToken::decode(token_data, token_sequence, &self.challenge_key)?;
+                    if token_sequence < pending.first_challenge_sequence {
+                        log::debug!("Ignored connection response from {}: challenge token was issued for an earlier connection attempt.", addr);
+                        return Ok(ServerResult::None);
+                    }
                     if challenge_token.client_id != pending.client_id || challenge_token.user_data != pending.user_data {
                         log::debug!(
                             "Ignored connection response from {}: challenge token was issued for Client {}, pending Client is {}.",
